@@ -570,6 +570,11 @@ func (dht *FullRT) GetClosestPeers(ctx context.Context, key string) ([]peer.ID, 
 					if _, ok := ipGroupCounts[ipGroup]; !ok {
 						ipGroupCounts[ipGroup] = make(map[peer.ID]struct{})
 					}
+					if _, ok := ipGroupCounts[ipGroup][p]; ok {
+						// Another address of this peer lies in the same group:
+						// the peer is already counted there.
+						continue
+					}
 					if len(ipGroupCounts[ipGroup]) >= dht.ipDiversityFilterLimit {
 						// This ip group is already overrepresented, skip this peer
 						continue PeersLoop
